@@ -555,7 +555,7 @@ def listing_core(root: Path):
     return out
 
 
-def run_return_early(run):
+def run_return_early(run, tag="c12e"):
     """`memmap_/memmap/memmap_like(num_threads>1, return_early=True)` return a TensorDictFuture: `.result()` must hand the
     tensordict back only once **every** submitted writer task has completed. The executor runs *only* the tasks somebody
     waits for (the most adversarial legal schedule), so a task that is submitted but not among the awaited futures is
@@ -564,7 +564,7 @@ def run_return_early(run):
     import c11_trips
     rng = run.rng
     quick = run.tier == "quick"
-    root = BUILD / "tmp" / f"c12e_{run.seed}_{run.tier}"
+    root = BUILD / "tmp" / f"{tag}_{run.seed}_{run.tier}"
     shutil.rmtree(root, ignore_errors=True)
     root.mkdir(parents=True, exist_ok=True)
     P = c11_trips.tc_cls()
@@ -620,11 +620,16 @@ def run_return_early(run):
                                     res = fut.result()
                                     ex = pp.executors[0]
                                     pending = [ex.submitted[idx] for (idx, *_rest) in ex.pending]
-                                    obs = (listing_core(d), canon(TensorDict.load_memmap(d) if kind != "tensorclass-root" else P.load_memmap(d), **opts)) if not pending else None
+                                    # what is on disk and what a load returns at the moment result() hands the tensordict back
+                                    try:
+                                        obs = (listing_core(d), canon(TensorDict.load_memmap(d) if kind != "tensorclass-root" else P.load_memmap(d), **opts))
+                                    except Exception as e:  # noqa: BLE001
+                                        obs = ("load raised", f"{type(e).__name__}: {str(e)[:100]}")
                                     ex.flush()
                             if pending:
                                 names = [getattr(fn, "__name__", "?") + ":" + str(kw.get("key", "")) for (fn, a, kw) in pending]
-                                bad = f"result() returned while {len(pending)} of {len(ex.submitted)} submitted writer tasks were not awaited (still pending): {names}"
+                                bad = (f"result() returned while {len(pending)} of {len(ex.submitted)} submitted writer tasks were not awaited (still pending): {names}; "
+                                       f"loaded at that moment vs the single-threaded form: {first_diff(list(ref_obs), list(obs))}")
                             elif obs != ref_obs:
                                 bad = f"after result() the directory / loaded content differs from the single-threaded form: {first_diff(list(ref_obs), list(obs))}"
                             else:
